@@ -259,7 +259,7 @@ func nonZeroEdge(w *World, f *ssa.Function, iff *ssa.If) int {
 	switch x := cond.(type) {
 	case *ssa.BinOp:
 		// Sign() != 0  / Sign() == 0
-		if k, ok := x.Y.(*ssa.Const); ok && k.Int64() == 0 {
+		if k, ok := x.Y.(*ssa.Const); ok && ci(k) == 0 {
 			switch x.Op.String() {
 			case "!=":
 				res = 0
